@@ -262,7 +262,7 @@ def tla_modules():
 
 
 def run_tlc(tag, module, cfg_text, files=None, workers=1, args=(), timeout=3600, fast=True,
-            env_extra=None, keep=False, heap="8g", simulate=None):
+            env_extra=None, keep=False, heap="3g", simulate=None):
     """Run TLC on spec module `module` with configuration text `cfg_text` in a private
     directory under build/tlc; `files` maps file names to contents written next to the spec."""
     d = os.path.join(BUILD, "tlc", "%s-%d-%d" % (tag, os.getpid(), int(time.time() * 1000) % 100000000))
